@@ -5,7 +5,7 @@ from __future__ import annotations
 import ast
 
 from ..cfg import NORMAL, ALL, walk_local
-from ..facts import (runs_only_when, cfg_of, call_name, calls_in, bind_args, targets_of,
+from ..facts import (built_sequence, runs_only_when, cfg_of, call_name, calls_in, bind_args, targets_of,
                      local_assigns, resolve_local, guard_atoms, is_attr,
                      is_name, strip_await, names_in, enclosing)
 from ..loader import txt, AnchorError
@@ -454,22 +454,14 @@ def r26(ctx) -> None:
     why = 'set_messages is not called'
     for c in calls_in(f.node, 'set_messages'):
         why = 'argument is not the unfiltered self.messages() listing'
-        for v in resolve_local(f, c.args[0]) if c.args else []:
-            if isinstance(v, ast.ListComp) and len(v.generators) == 1 and \
-                    not v.generators[0].ifs and \
-                    txt(v.generators[0].iter) == 'self.messages()' and \
-                    txt(v.elt) == txt(v.generators[0].target):
+        bs = built_sequence(f, c.args[0]) if c.args else None
+        if bs and all(not b['ifs'] and txt(b['iter']) == 'self.messages()'
+                      and txt(b['elt']) == txt(b['target']) for b in bs):
+            # a `continue` in the loop body would filter as well
+            if not any(isinstance(x, (ast.Continue, ast.Break))
+                       for b in bs if 'loop' in b
+                       for x in ast.walk(b['loop'])):
                 ok = True
-            if isinstance(v, ast.Name):
-                # built by a loop: lst = []; async for m in self.messages():
-                apps = [a for a in calls_in(f.node, 'append')
-                        if is_name(a.func.value, v.id)]
-                for a in apps:
-                    loops = enclosing(f.node, a, (ast.AsyncFor, ast.For))
-                    conds = enclosing(f.node, a, (ast.If,))
-                    if loops and txt(loops[0].iter) == 'self.messages()' \
-                            and not conds:
-                        ok = True
     R.check(ok, f, f.node, 'update_selected passes the complete listing',
             f'{why}: set_messages treats every UID missing from its '
             f'argument as expunged')
